@@ -11,6 +11,7 @@ import (
 	"path/filepath"
 	"sort"
 	"strings"
+	"sync"
 	"time"
 
 	"github.com/enfein/mieru/v3/pkg/appctl/appctlpb"
@@ -49,6 +50,7 @@ type c04Case struct {
 	Special       string          `json:"special,omitempty"` // swap32 | copy32 (crafted application chunks)
 	Label         string          `json:"label,omitempty"`   // name of the deterministic boundary this case stands for
 	GapUs         int             `json:"gap_us,omitempty"`  // pause between consecutive writes of both writers
+	Rerun         bool            `json:"rerun,omitempty"`   // second execution of a case whose first one hit the time limit
 	TimeoutS      int             `json:"timeout_s"`
 }
 
@@ -277,6 +279,24 @@ func c04Run(c *core.Ctx, k c04Case) {
 
 var c04Cells = &c04Matrix{}
 
+// c04Again collects cases to be executed once more after the parallel phase.
+type c04Retry struct {
+	mu    sync.Mutex
+	cases []c04Case
+}
+
+func (r *c04Retry) add(k c04Case) {
+	k.Rerun = true
+	if k.TimeoutS < 20 {
+		k.TimeoutS = 20
+	}
+	r.mu.Lock()
+	r.cases = append(r.cases, k)
+	r.mu.Unlock()
+}
+
+var c04Again = &c04Retry{}
+
 // ------------------------------------------------------------------------------------------------
 // model prediction, TCP: the whole mutated direction is replayed through the model receiver
 
@@ -383,6 +403,11 @@ func c04CompareTCP(c *core.Ctx, k c04Case, o *c04Outcome) {
 		c.Hist("tcp_delivered_vs_model", "equal")
 	} else if dead {
 		c.Hist("tcp_delivered_vs_model", "fewer (teardown race after a failed open)")
+	} else if o.tr.Stalled && !k.Rerun {
+		// the transfer hit its time limit: a cut stream (the endpoint waits, as the model does) or merely a
+		// slow machine — decided by running the case once more, alone and with a longer limit
+		c.Hist("tcp_delivered_vs_model", "fewer at the time limit (run again)")
+		c04Again.add(k)
 	} else {
 		c.Disagree("C04/corr/tcp-delivered-fewer-than-model", fmt.Sprintf("%s/%s on %s: the model receiver accepts %d application bytes of the mutated stream and no open fails, the real application read only %d (%s; reader ended with %q)", k.Mut.Kind, k.Mut.Class, k.PatternName, predicted, got, reply, r.Err), k)
 	}
@@ -1023,6 +1048,13 @@ func init() {
 				}
 				c.Hist("matrix retry", strings.Join(empty, " "))
 				core.Parallel(len(again), 16, func(i int) { c04Run(c, again[i]) })
+			}
+			c04Again.mu.Lock()
+			again := c04Again.cases
+			c04Again.cases = nil
+			c04Again.mu.Unlock()
+			for _, k := range again {
+				c04Run(c, k)
 			}
 			for _, e := range c04Cells.report(c, true) {
 				c.Disagree("C04/generator/empty-cell/"+e, "the case generator did not apply a single mutation of this byte-position class x kind on this transport in this run (two attempts): the campaign does not cover what the property quantifies over", nil)
